@@ -8,7 +8,8 @@
 //!   clog clog2 clog10 `some <hex> e<..>` | `none`            read from `verif_hooks::take_tap`; `-` = loop not reached)
 //!   root            `<hex> g<hex first guess | - | !>`      (tap = raw f64 bits of `approx_log2(x)/degree`; the guess is
 //!                                                            `approx_pow2` of exactly that float; `!` = approx_pow2 gave None)
-//!   apow2           `some <hex>` | `none`                   (approx_pow2 of the f64 with the given raw bits)
+//!   apow2           `some <hex>|none` then `neg|one|big|m<hex mant> s<hex shift>` (approx_pow2 of the f64 with the given raw
+//!                                                            bits; the float pre-processing is recomputed in the harness)
 //!   apow2i          `some <hex>` | `none`                   (approx_pow2 of the signed decimal integer argument as f64)
 //!   alog2           `<hex raw f64 bits>`                    (approx_log2)
 use ruint::verif_hooks::take_tap;
@@ -80,8 +81,27 @@ fn run<const B: usize, const L: usize>(p: &[&str]) -> String {
             format!("{} {}", h(&r), g)
         }
         "apow2" => {
+            // result of the real approx_pow2, followed by the float pre-processing it starts with
+            // (classification of `exp`, and `bits = (fract.exp2() * 2^63) as u64`, `shift = trunc`),
+            // recomputed here with the same libm calls so that the driver can run the integer
+            // post-processing model on it.
             let e = f64::from_bits(u64::from_str_radix(p[2], 16).unwrap());
-            opt(U::<B, L>::approx_pow2(e))
+            let r = opt(U::<B, L>::approx_pow2(e));
+            #[allow(clippy::cast_precision_loss, clippy::cast_possible_truncation, clippy::cast_sign_loss)]
+            let class = if e < -1.0 {
+                "neg".to_string()
+            } else if e < 0.584_962_500_721_156_2_f64 {
+                "one".to_string()
+            } else if e > B as f64 {
+                "big".to_string()
+            } else if e.is_nan() {
+                "nan".to_string()
+            } else {
+                let shift = e.trunc() as usize;
+                let mant = (e.fract().exp2() * 9_223_372_036_854_775_808_f64) as u64;
+                format!("m{mant:x} s{shift:x}")
+            };
+            format!("{r} {class}")
         }
         "apow2i" => {
             let n: i64 = p[2].parse().unwrap();
